@@ -165,7 +165,9 @@ Section RsaProofs.
     intros He [He0 [Hd0 Hk]] HN Hx Hl Hlt. unfold RsaPad.rsa_decrypt. unfold RsaPad.modexp_is_pow in He.
     pose proof (Z.mod_pos_bound (be_dec x ^ e) N ltac:(lia)) as Hb.
     pose proof (be_dec_range x Hx) as Hr.
+    rewrite be_enc_length. change (Z.of_nat 256 =? c_rsaLen) with true. cbv [negb].
     rewrite be_dec_enc by (change (Z.of_nat 256) with 256; set (B := 256 ^ 256) in *; lia).
+    destruct (Z.leb_spec N (be_dec x ^ e mod N)); [lia|].
     rewrite He by exact Hd0. rewrite Hk by lia.
     rewrite Hl in Hr. destruct (Z.ltb_spec (be_dec x) (256 ^ Z.of_nat n)); [|lia].
     rewrite <- Hl, be_enc_dec by exact Hx. reflexivity.
@@ -434,7 +436,8 @@ Section RsaProofs.
 
   Lemma rsa_decrypt_wf c n ed : rsa_decrypt c n = Some ed -> length ed = n /\ bytes_ok ed.
   Proof.
-    unfold RsaPad.rsa_decrypt. destruct (_ <? _); [|discriminate]. intros E; inversion E; subst.
+    unfold RsaPad.rsa_decrypt. destruct (negb _); [discriminate|]. destruct (N <=? _); [discriminate|].
+    destruct (_ <? _); [|discriminate]. intros E; inversion E; subst.
     split; [apply be_enc_length|apply be_enc_ok].
   Qed.
 
@@ -725,6 +728,71 @@ Section RsaProofs.
     intros k Hk. destruct (Hpre k Hk) as [b [Hb Hge]]. fold dwp.
     rewrite pad_kae_eq in Hb by assumption. congruence.
   Qed.
+
+  (* ---------- altered ciphertexts ---------- *)
+  Notation rsa_key_pair_r := (RsaPad.rsa_key_pair_r N e d).
+
+  (* only canonical ciphertexts (exactly 256 bytes, value below the modulus) are ever decrypted *)
+  Lemma rsa_decrypt_canonical c n blk : rsa_decrypt c n = Some blk ->
+    length c = 256%nat /\ be_dec c < N /\ blk = be_enc n (modexp (be_dec c) d N) /\
+    modexp (be_dec c) d N < 256 ^ Z.of_nat n.
+  Proof.
+    unfold RsaPad.rsa_decrypt. change c_rsaLen with 256.
+    destruct (Z.eqb_spec (Z.of_nat (length c)) 256) as [Hl|Hl]; cbn [negb]; [|discriminate].
+    destruct (Z.leb_spec N (be_dec c)); [discriminate|].
+    destruct (Z.ltb_spec (modexp (be_dec c) d N) (256 ^ Z.of_nat n)); [|discriminate].
+    intros E; inversion E. repeat split; try assumption; lia.
+  Qed.
+
+  (* two different byte strings that both decrypt have different plaintext blocks *)
+  Theorem rsa_decrypt_injective : modexp_is_pow -> rsa_key_pair_r -> 0 <= d -> 0 < N ->
+    forall c c' n blk blk', bytes_ok c -> bytes_ok c' -> c <> c' ->
+      rsa_decrypt c n = Some blk -> rsa_decrypt c' n = Some blk' -> blk <> blk'.
+  Proof.
+    intros He Hr Hd0 HN c c' n blk blk' Hco Hco' Hne H1 H2 Heq.
+    unfold RsaPad.modexp_is_pow in He.
+    apply rsa_decrypt_canonical in H1. destruct H1 as [Hl [Hlt [-> Hf]]].
+    apply rsa_decrypt_canonical in H2. destruct H2 as [Hl' [Hlt' [-> Hf']]].
+    rewrite !He in * by exact Hd0.
+    pose proof (Z.mod_pos_bound (be_dec c ^ d) N HN) as Hb.
+    pose proof (Z.mod_pos_bound (be_dec c' ^ d) N HN) as Hb'.
+    apply be_enc_inj in Heq; [|lia|lia].
+    pose proof (be_dec_range c Hco) as Hrg. pose proof (be_dec_range c' Hco') as Hrg'.
+    assert (be_dec c = be_dec c') as E.
+    { rewrite <- (Hr (be_dec c)) by lia. rewrite <- (Hr (be_dec c')) by lia. rewrite Heq. reflexivity. }
+    apply Hne. rewrite <- (be_enc_dec c Hco), <- (be_enc_dec c' Hco'), Hl, Hl', E. reflexivity.
+  Qed.
+
+  (* C14_pad_altered: a ciphertext different from an accepted one is accepted only through a
+     different RSA plaintext block; in particular never as an alias of the same block *)
+  Theorem pad_altered : sha256_wf -> aes_wf -> aes_inverse -> aes_dec_wf -> aes_inverse_r ->
+    modexp_is_pow -> rsa_key_pair_r -> 0 <= d -> 0 < N ->
+    forall c c' x x', bytes_ok c -> bytes_ok c' -> c <> c' ->
+      decode_rsa_pad c = Ok x -> decode_rsa_pad c' = Ok x' ->
+      exists tk tk' blk blk', pad_kae tk x = Ok blk /\ pad_kae tk' x' = Ok blk' /\
+        rsa_decrypt c 256 = Some blk /\ rsa_decrypt c' 256 = Some blk' /\ blk <> blk' /\
+        length c' = 256%nat /\ be_dec c' < N.
+  Proof.
+    intros Hs Hw Hi Hdw Hir He Hr Hd0 HN c c' x x' Hco Hco' Hne H1 H2.
+    apply pad_accept_iff_model in H1; try assumption. apply pad_accept_iff_model in H2; try assumption.
+    destruct H1 as [tk [blk [_ [_ [_ [Hb Hd]]]]]]. destruct H2 as [tk' [blk' [_ [_ [_ [Hb' Hd']]]]]].
+    exists tk, tk', blk, blk'.
+    pose proof (rsa_decrypt_canonical _ _ _ Hd') as [Hl' [Hlt' _]].
+    pose proof (rsa_decrypt_injective He Hr Hd0 HN c c' 256%nat blk blk' Hco Hco' Hne Hd Hd') as Hinj.
+    repeat split; assumption.
+  Qed.
+
+  (* non-canonical forms (wrong length, value >= N: c + k*N, zero-prefixed, truncated) are rejected *)
+  Theorem noncanonical_rejected : forall c,
+    length c <> 256%nat \/ N <= be_dec c ->
+    decode_rsa_pad c = Err EInvalid /\ rsa_decrypt_hashed c = Err EInvalid.
+  Proof.
+    intros c Hc.
+    assert (forall n, rsa_decrypt c n = None) as Hn.
+    { intros n. destruct (rsa_decrypt c n) as [b|] eqn:E; [|reflexivity].
+      apply rsa_decrypt_canonical in E. destruct E as [Hl [Hlt _]]. destruct Hc; [contradiction|lia]. }
+    unfold RsaPad.decode_rsa_pad, RsaPad.rsa_decrypt_hashed. rewrite !Hn. split; reflexivity.
+  Qed.
 End RsaProofs.
 
 (* ---------- non-vacuity: the hypothesis sets are satisfiable (degenerate but legal instance) ---------- *)
@@ -736,7 +804,7 @@ Definition nv_N : Z := 256 ^ 255.
 Lemma nv_hyps :
   sha256_wf nv_sha256 /\ sha1_wf nv_sha1 /\ aes_wf nv_aes /\ aes_inverse nv_aes nv_aes /\
   aes_dec_wf nv_aes /\ aes_inverse_r nv_aes nv_aes /\ modexp_is_pow modexp_sm nv_N /\
-  rsa_key_pair nv_N 1 1 /\ 256 ^ 255 <= nv_N <= 256 ^ 256 /\ 0 < nv_N.
+  rsa_key_pair nv_N 1 1 /\ 256 ^ 255 <= nv_N <= 256 ^ 256 /\ 0 < nv_N /\ rsa_key_pair_r nv_N 1 1.
 Proof.
   assert (0 < 256 ^ 255) as Hp by (apply Z.pow_pos_nonneg; lia).
   repeat split; try (apply repeat_length); try (apply bytes_ok_repeat; unfold byte_ok; lia);
@@ -744,4 +812,5 @@ Proof.
   - intros b x Hx; apply modexp_sm_spec; exact Hx.
   - intros m Hm. rewrite !Z.pow_1_r, Z.mod_mod, Z.mod_small by lia. reflexivity.
   - apply Z.pow_le_mono_r; lia.
+  - intros m Hm. rewrite !Z.pow_1_r, Z.mod_mod, Z.mod_small by lia. reflexivity.
 Qed.
